@@ -589,10 +589,17 @@ func (r *Reader) RefsFor(oid []byte) (*Iterator, error) {
 	if r.offsets[blockTypeObj].Present {
 		return r.refsForIndexed(oid)
 	}
+	return r.refsForLinear(oid)
+}
 
+func (r *Reader) refsForLinear(oid []byte) (*Iterator, error) {
 	it, err := r.start(blockTypeRef, false)
 	if err != nil {
 		return nil, err
+	}
+	if it == nil {
+		// no ref section.
+		return &Iterator{&emptyIterator{}}, nil
 	}
 	return &Iterator{&filteringRefIterator{
 		tab:         r,
@@ -609,6 +616,10 @@ func (r *Reader) refsForIndexed(oid []byte) (*Iterator, error) {
 	if err != nil {
 		return nil, err
 	}
+	if it == nil {
+		// beyond the last indexed object ID.
+		return &Iterator{&emptyIterator{}}, nil
+	}
 
 	got := objRecord{}
 	ok, err := it.Next(&got)
@@ -617,6 +628,11 @@ func (r *Reader) refsForIndexed(oid []byte) (*Iterator, error) {
 	}
 	if !ok || got.key() != want.key() {
 		return &Iterator{&emptyIterator{}}, nil
+	}
+	if len(got.Offsets) == 0 {
+		// The writer left out the block positions because
+		// they did not fit in a block: scan all ref blocks.
+		return r.refsForLinear(oid)
 	}
 
 	tr := &indexedTableRefIter{
